@@ -2140,12 +2140,464 @@ Proof.
   rewrite Hsame.
   destruct (forallb (dep_ok bA) (node_deps n)) eqn:Ed; cbn [negb];
     [|apply mark_step; auto; intro Hx; discriminate Hx].
-  destruct n as [t|l a]; [|apply mark_step; auto; intros _ t Ht; discriminate Ht].
+  destruct n as [t|l a]; [|apply mark_step; auto; intros _ t Ht; rewrite En in Ht; discriminate Ht].
   destruct (pt_step c0 k t bA bM En (Hshort k t En) HG HS Hcl Ed (Hguard t eq_refl)) as [G S'].
   pose proof S' as (_ & _ & _ & _ & _ & Srt & _). rewrite <- (proj2 (proj2 (Srt k))).
   destruct (rt_status (get_rt (process_target H cfgA s k t bA) k)); try (split; assumption).
   rewrite <- Hff. destruct (cfg_failfast cfgA); [|split; assumption].
   split; [exact G | apply sim_stop, S'].
 Qed.
+
+(* ------------------------------------------------------------------ a whole build, both modes *)
+Definition build_guard (c0 : cache) (roots : list nat) (wA : world) : Prop :=
+  forall k t, node_at s k = Some (NTarget t) ->
+    node_guard c0 t (build_prefix H cfgA s roots wA c0 k).
+
+Lemma get_rt_init w c j : get_rt (build_init s w c) j = rt0.
+Proof. unfold get_rt, build_init. cbn [b_rt]. apply nth_repeat. Qed.
+
+Lemma init_good c0 wA : cinv c0 -> nowk (w_ws wA) -> goodA c0 0 (build_init s wA c0).
+Proof.
+  intros Hci Hwk. split; [|split].
+  - split; [exact Hci|]. split; [exact Hwk|]. split; [apply repeat_length|].
+    intros j tj _ Hok. unfold dep_ok in Hok. rewrite get_rt_init in Hok. discriminate.
+  - intros j _. apply get_rt_init.
+  - intro key. left. reflexivity.
+Qed.
+
+Lemma init_sim c0 wA wM :
+  w_ext wA = w_ext wM -> nowk (w_ws wM) -> sim (build_init s wA c0) (build_init s wM c0).
+Proof.
+  intros He Hwk. split; [reflexivity|]. split; [reflexivity|]. split; [reflexivity|].
+  split; [exact He|]. split; [reflexivity|]. split; [|split; [exact Hwk|]].
+  - intro j. rewrite !get_rt_init. auto.
+  - intros j tj _ Hl. rewrite get_rt_init in Hl. discriminate.
+Qed.
+
+Lemma prefix_lockstep c0 roots wA wM :
+  deps_short -> cinv c0 -> nowk (w_ws wA) -> nowk (w_ws wM) -> w_ext wA = w_ext wM ->
+  build_guard c0 roots wA ->
+  forall k, goodA c0 k (build_prefix H cfgA s roots wA c0 k) /\
+            sim (build_prefix H cfgA s roots wA c0 k) (build_prefix H cfgM s roots wM c0 k).
+Proof.
+  intros Hshort Hci HwA HwM He Hguard. induction k as [|k [IHg IHs]].
+  - unfold build_prefix. cbn [seq fold_left]. split; [apply init_good | apply init_sim]; assumption.
+  - pose proof (build_prefix_closed H cfgA s roots wA c0 k) as Hcl.
+    unfold build_prefix in *. rewrite !seq_S, !fold_left_app. cbn [fold_left plus].
+    apply pn_step; auto. intros t Ht. apply (Hguard k t Ht).
+Qed.
+
+Definition result_of (b : bstate) : build_result :=
+  mkBR (b_world b) (b_cache b) (map rt_status (b_rt b)) (b_exec b)
+       (negb (existsb (fun st => match st with TFailed => true | _ => false end) (map rt_status (b_rt b)))).
+
+Lemma build_prefix_result cfg roots w c :
+  build H cfg s roots w c = result_of (build_prefix H cfg s roots w c (length (s_nodes s))).
+Proof. reflexivity. Qed.
+
+Lemma sim_sts bA bM : sim bA bM -> map rt_status (b_rt bA) = map rt_status (b_rt bM).
+Proof.
+  intros (_ & _ & _ & _ & Sl & Srt & _). change (sts bA = sts bM).
+  apply (nth_ext _ _ TNone TNone).
+  - rewrite !sts_length. exact Sl.
+  - intros n _. rewrite !nth_sts. apply (proj2 (proj2 (Srt n))).
+Qed.
+
+(* a successful, restored target of the minimal build holds the same bytes as in the all build *)
+Lemma sim_materialised bA bM j tj o :
+  coreA bA -> sim bA bM -> node_at s j = Some (NTarget tj) -> rt_loaded (get_rt bM j) = true ->
+  In o (td_outs tj) ->
+  exists c, ws_get (out_path tj o) (w_ws (b_world bM)) = PFile c /\
+            ws_get (out_path tj o) (w_ws (b_world bA)) = PFile c.
+Proof.
+  intros (_ & _ & _ & Hgood) HS Hn Hl Ho. pose proof HS as (_ & _ & _ & _ & _ & _ & _ & Sld).
+  destruct (Sld j tj Hn Hl) as [Hd Hw]. rewrite (sim_dep_ok bA bM j HS) in Hd.
+  destruct (Hgood j tj Hn Hd) as [_ (key & r & _ & _ & _ & Hm & Hc)].
+  destruct (outputs_match_entry tj r o Hm Ho) as (dg & Hin & _).
+  destruct (Hc o dg Ho Hin) as (x & Hx & _). exists x. rewrite (Hw o Ho). auto.
+Qed.
+
+Theorem build_lockstep c0 roots wA wM :
+  deps_short -> cinv c0 -> nowk (w_ws wA) -> nowk (w_ws wM) -> w_ext wA = w_ext wM ->
+  build_guard c0 roots wA ->
+  let rA := build H cfgA s roots wA c0 in
+  let rM := build H cfgM s roots wM c0 in
+  br_ok rA = br_ok rM /\ br_status rA = br_status rM /\ br_exec rA = br_exec rM /\
+  br_cache rA = br_cache rM /\ w_ext (br_world rA) = w_ext (br_world rM) /\
+  cinv (br_cache rA) /\ nowk (w_ws (br_world rA)) /\ nowk (w_ws (br_world rM)) /\
+  (forall j tj o, node_at s j = Some (NTarget tj) ->
+     rt_loaded (get_rt (build_prefix H cfgM s roots wM c0 (length (s_nodes s))) j) = true ->
+     In o (td_outs tj) ->
+     exists c, ws_get (out_path tj o) (w_ws (br_world rM)) = PFile c /\
+               ws_get (out_path tj o) (w_ws (br_world rA)) = PFile c).
+Proof.
+  intros Hshort Hci HwA HwM He Hguard rA rM.
+  destruct (prefix_lockstep c0 roots wA wM Hshort Hci HwA HwM He Hguard (length (s_nodes s))) as [HG HS].
+  unfold rA, rM. rewrite !build_prefix_result. unfold result_of. cbn [br_ok br_status br_exec br_cache br_world].
+  pose proof HS as (Sc & Sx & _ & Se & _ & _ & Swk & _). pose proof HG as (HC & _).
+  pose proof HC as (Hci' & Hwk' & _).
+  rewrite (sim_sts _ _ HS).
+  split; [reflexivity|]. split; [reflexivity|]. split; [exact Sx|]. split; [exact Sc|].
+  split; [exact Se|]. split; [exact Hci'|]. split; [exact Hwk'|]. split; [exact Swk|].
+  intros j tj o Hn Hl Ho. apply (sim_materialised _ _ j tj o HC HS Hn Hl Ho).
+Qed.
+
 End Build1.
+
+(* ------------------------------------------------------------------ histories, both modes *)
+Definition with_mode (m : lmode) (o : op) : op :=
+  match o with
+  | OpBuild cfg roots => OpBuild (mkCfg m (cfg_cache cfg) (cfg_failfast cfg)) roots
+  | _ => o
+  end.
+
+Definition run_from (m : lmode) (y : sys) (ops : list op) : sys :=
+  fold_left (step_op H) (map (with_mode m) ops) y.
+
+Definition log_rel (rA rM : build_result) : Prop :=
+  br_ok rA = br_ok rM /\ br_status rA = br_status rM /\ br_exec rA = br_exec rM /\
+  br_cache rA = br_cache rM.
+
+Definition hsim (yA yM : sys) : Prop :=
+  sy_src yA = sy_src yM /\ sy_cache yA = sy_cache yM /\
+  w_ext (sy_world yA) = w_ext (sy_world yM) /\
+  cinv (sy_cache yA) /\ nowk (w_ws (sy_world yA)) /\ nowk (w_ws (sy_world yM)) /\
+  Forall2 log_rel (sy_log yA) (sy_log yM).
+
+(* guards of one operation, evaluated on the state of the mode-all run *)
+Definition op_guard (yA : sys) (o : op) : Prop :=
+  match o with
+  | OpBuild cfg roots =>
+      cfg_cache cfg = true /\ no_overwrite (sy_src yA) /\ plain (sy_src yA) /\ deps_short (sy_src yA) /\
+      build_guard (mkCfg LAll (cfg_cache cfg) (cfg_failfast cfg)) (sy_src yA) (sy_cache yA) roots (sy_world yA)
+  | OpPerturb _ st => st <> PWrongKind
+  | OpDropBlob _ => False
+  | _ => True
+  end.
+
+Fixpoint hist_guard (yA : sys) (ops : list op) : Prop :=
+  match ops with
+  | [] => True
+  | o :: r => op_guard yA o /\ hist_guard (step_op H yA (with_mode LAll o)) r
+  end.
+
+Lemma cinv_same c c' : c_results c' = c_results c -> c_cas c' = c_cas c -> cinv c -> cinv c'.
+Proof. intros Hr Hc [Hs Hres]. unfold cinv, res_ok. rewrite Hr, Hc. split; assumption. Qed.
+
+Lemma step_hsim yA yM o :
+  hsim yA yM -> op_guard yA o ->
+  hsim (step_op H yA (with_mode LAll o)) (step_op H yM (with_mode LMinimal o)).
+Proof.
+  intros (Hsrc & Hc & He & Hci & HwA & HwM & Hlog) Hg.
+  destruct o as [s'|ls|p st|l|p| |cfg roots]; cbn [with_mode step_op].
+  - unfold hsim. cbn [sy_src sy_cache sy_world sy_log]. auto 10.
+  - unfold hsim. cbn [sy_src sy_cache sy_world sy_log]. rewrite <- Hc.
+    split; [exact Hsrc|]. split; [reflexivity|]. split; [exact He|].
+    split; [apply (cinv_same (sy_cache yA)); [reflexivity | reflexivity | exact Hci]|]. auto.
+  - unfold hsim. cbn [sy_src sy_cache sy_world sy_log w_ws w_ext]. cbn [op_guard] in Hg.
+    split; [exact Hsrc|]. split; [exact Hc|]. split; [exact He|]. split; [exact Hci|].
+    split; [eapply nowk_le; [apply wk_le_set, Hg | exact HwA]|].
+    split; [eapply nowk_le; [apply wk_le_set, Hg | exact HwM]|]. exact Hlog.
+  - unfold hsim. cbn [sy_src sy_cache sy_world sy_log w_ws w_ext]. rewrite He. auto 10.
+  - destruct Hg.
+  - unfold hsim. cbn [sy_src sy_cache sy_world sy_log]. rewrite <- Hc.
+    split; [exact Hsrc|]. split; [reflexivity|]. split; [exact He|]. split; [|auto].
+    split; [apply Hci|]. intros k r def dg Hr. discriminate Hr.
+  - cbn [op_guard] in Hg. destruct Hg as (Hcc & Hno & Hpl & Hshort & Hbg).
+    rewrite <- Hsrc, <- Hc.
+    destruct (build_lockstep (mkCfg LAll (cfg_cache cfg) (cfg_failfast cfg))
+                (mkCfg LMinimal (cfg_cache cfg) (cfg_failfast cfg)) (sy_src yA)
+                eq_refl eq_refl Hcc Hcc eq_refl Hno Hpl (sy_cache yA) roots (sy_world yA) (sy_world yM)
+                Hshort Hci HwA HwM He Hbg) as (B1 & B2 & B3 & B4 & B5 & B6 & B7 & B8 & _).
+    unfold hsim. cbn [sy_src sy_cache sy_world sy_log].
+    split; [reflexivity|]. split; [exact B4|]. split; [exact B5|]. split; [exact B6|].
+    split; [exact B7|]. split; [exact B8|].
+    apply Forall2_app; [exact Hlog|]. constructor; [|constructor]. repeat split; assumption.
+Qed.
+
+Lemma lockstep_from : forall ops yA yM,
+  hsim yA yM -> hist_guard yA ops -> hsim (run_from LAll yA ops) (run_from LMinimal yM ops).
+Proof.
+  induction ops as [|o ops IH]; intros yA yM Hs Hg; [exact Hs|].
+  destruct Hg as [Hg Hr]. unfold run_from. cbn [map fold_left].
+  apply IH; [apply step_hsim; assumption | exact Hr].
+Qed.
+
+Lemma hsim_sys0 : hsim sys0 sys0.
+Proof.
+  unfold hsim, sys0. cbn [sy_src sy_cache sy_world sy_log w_ws w_ext].
+  split; [reflexivity|]. split; [reflexivity|]. split; [reflexivity|]. split; [|split; [|split]].
+  - split; [intros dg x Hx; discriminate Hx | intros k r def dg Hr; discriminate Hr].
+  - intros p Hp. discriminate Hp.
+  - intros p Hp. discriminate Hp.
+  - constructor.
+Qed.
+
+(* the headline: the same history run with every build in mode all and with every build in mode
+   minimal: build by build the same exit status, the same per-node statuses, the same commands in
+   the same order, the same cache afterwards (results, CAS and taints: the caches of the two runs are
+   equal), the same external conditions *)
+Theorem history_lockstep ops :
+  hist_guard sys0 ops -> hsim (run_from LAll sys0 ops) (run_from LMinimal sys0 ops).
+Proof. intro Hg. apply lockstep_from; [apply hsim_sys0 | exact Hg]. Qed.
+
+Lemma hist_guard_app : forall pre y post,
+  hist_guard y (pre ++ post) -> hist_guard y pre /\ hist_guard (run_from LAll y pre) post.
+Proof.
+  induction pre as [|o pre IH]; intros y post Hg; [split; [exact I | exact Hg]|].
+  cbn [app hist_guard] in Hg. destruct Hg as [Hg Hr]. destruct (IH _ _ Hr) as [H1 H2].
+  split; [split; assumption | exact H2].
+Qed.
+
+(* every output that a build of the minimal run materialises has the bytes it has in the all run *)
+Theorem history_materialised pre cfg roots post :
+  hist_guard sys0 (pre ++ OpBuild cfg roots :: post) ->
+  let yA := run_from LAll sys0 pre in
+  let yM := run_from LMinimal sys0 pre in
+  let cfgM := mkCfg LMinimal (cfg_cache cfg) (cfg_failfast cfg) in
+  let cfgA := mkCfg LAll (cfg_cache cfg) (cfg_failfast cfg) in
+  let s := sy_src yM in
+  let rA := build H cfgA (sy_src yA) roots (sy_world yA) (sy_cache yA) in
+  let rM := build H cfgM s roots (sy_world yM) (sy_cache yM) in
+  forall j tj o, node_at s j = Some (NTarget tj) ->
+    rt_loaded (get_rt (build_prefix H cfgM s roots (sy_world yM) (sy_cache yM) (length (s_nodes s))) j) = true ->
+    In o (td_outs tj) ->
+    exists c, ws_get (out_path tj o) (w_ws (br_world rM)) = PFile c /\
+              ws_get (out_path tj o) (w_ws (br_world rA)) = PFile c.
+Proof.
+  intros Hg yA yM cfgM cfgA s rA rM.
+  destruct (hist_guard_app pre sys0 _ Hg) as [Hpre Hpost]. fold yA in Hpost.
+  cbn [hist_guard op_guard] in Hpost. destruct Hpost as [(Hcc & Hno & Hpl & Hshort & Hbg) _].
+  pose proof (lockstep_from pre sys0 sys0 hsim_sys0 Hpre) as (Hsrc & Hc & He & Hci & HwA & HwM & _).
+  fold yA yM in Hsrc, Hc, He, Hci, HwA, HwM.
+  unfold rA, rM, s. rewrite <- Hsrc, <- Hc.
+  apply (build_lockstep cfgA cfgM (sy_src yA) eq_refl eq_refl Hcc Hcc eq_refl Hno Hpl (sy_cache yA) roots
+           (sy_world yA) (sy_world yM) Hshort Hci HwA HwM He Hbg).
+Qed.
+
+(* ------------------------------------------------------------------ the guards, decidable *)
+Definition node_guardb (s : sources) (c0 : cache) (t : tdef) (bA : bstate) : bool :=
+  match dep_hashes s bA (td_deps t) with
+  | None => true
+  | Some dh =>
+      let key := pt_key H s t dh in
+      forallb (fun r => match rt_key r with Some k' => negb (str_eqb k' key) | None => true end) (b_rt bA) &&
+      match rlookup key (c_results c0) with Some r => outputs_match t r | None => true end
+  end.
+
+Lemma node_guardb_ok s c0 t bA : node_guardb s c0 t bA = true -> node_guard s c0 t bA.
+Proof.
+  unfold node_guardb, node_guard. intros Hb dh Hdh. rewrite Hdh in Hb. cbv zeta in Hb.
+  apply andb_true_iff in Hb as [Hf Hr]. split.
+  - intros j Hj. rewrite forallb_forall in Hf. unfold get_rt in Hj.
+    destruct (lt_dec j (length (b_rt bA))) as [Hlt|Hge].
+    + specialize (Hf _ (nth_In _ rt0 Hlt)). rewrite Hj, str_eqb_refl in Hf. discriminate.
+    + rewrite nth_overflow in Hj by lia. discriminate.
+  - intros r Hr'. rewrite Hr' in Hr. exact Hr.
+Qed.
+
+Definition build_guardb (cfgA : config) (s : sources) (c0 : cache) (roots : list nat) (wA : world) : bool :=
+  forallb (fun k => match node_at s k with
+                    | Some (NTarget t) => node_guardb s c0 t (build_prefix H cfgA s roots wA c0 k)
+                    | _ => true
+                    end) (seq 0 (length (s_nodes s))).
+
+Lemma build_guardb_ok cfgA s c0 roots wA :
+  build_guardb cfgA s c0 roots wA = true -> build_guard cfgA s c0 roots wA.
+Proof.
+  unfold build_guardb, build_guard. intros Hb k t Hn. rewrite forallb_forall in Hb.
+  assert (Hk : In k (seq 0 (length (s_nodes s)))) by (apply in_seq; pose proof (node_at_lt s k _ Hn); lia).
+  specialize (Hb k Hk). rewrite Hn in Hb. apply node_guardb_ok, Hb.
+Qed.
+
+Definition deps_shortb (s : sources) : bool :=
+  forallb (fun n => match n with
+                    | NTarget t => length (td_deps t) <=? length (s_nodes s)
+                    | NAlias _ _ => true
+                    end) (s_nodes s).
+
+Lemma deps_shortb_ok s : deps_shortb s = true -> deps_short s.
+Proof.
+  unfold deps_shortb, deps_short, node_at. intros Hb i t Hn. rewrite forallb_forall in Hb.
+  specialize (Hb _ (nth_error_In _ _ Hn)). apply Nat.leb_le. exact Hb.
+Qed.
+
+Fixpoint nodupb (l : list str) : bool :=
+  match l with [] => true | x :: r => negb (existsb (str_eqb x) r) && nodupb r end.
+
+Lemma nodupb_ok l : nodupb l = true -> NoDup l.
+Proof.
+  induction l as [|x l IH]; intro Hb; [constructor|]. cbn [nodupb] in Hb.
+  apply andb_true_iff in Hb as [Hx Hl]. constructor; [|apply IH, Hl].
+  intro Hin. apply negb_true_iff in Hx.
+  assert (existsb (str_eqb x) l = true) by (apply existsb_exists; exists x; split; [exact Hin | apply str_eqb_refl]).
+  congruence.
+Qed.
+
+Definition op_guardb (yA : sys) (o : op) : bool :=
+  match o with
+  | OpBuild cfg roots =>
+      cfg_cache cfg && nodupb (all_out_paths (sy_src yA)) && forallb plain_node (s_nodes (sy_src yA)) &&
+      deps_shortb (sy_src yA) &&
+      build_guardb (mkCfg LAll (cfg_cache cfg) (cfg_failfast cfg)) (sy_src yA) (sy_cache yA) roots (sy_world yA)
+  | OpPerturb _ st => match st with PWrongKind => false | _ => true end
+  | OpDropBlob _ => false
+  | _ => true
+  end.
+
+Fixpoint hist_guardb (yA : sys) (ops : list op) : bool :=
+  match ops with
+  | [] => true
+  | o :: r => op_guardb yA o && hist_guardb (step_op H yA (with_mode LAll o)) r
+  end.
+
+Lemma op_guardb_ok yA o : op_guardb yA o = true -> op_guard yA o.
+Proof.
+  destruct o as [s'|ls|p st|l|p| |cfg roots]; cbn [op_guardb op_guard]; intro Hb; try exact I.
+  - destruct st; try discriminate; intro Hx; discriminate Hx.
+  - discriminate Hb.
+  - apply andb_true_iff in Hb as [Hb H5]. apply andb_true_iff in Hb as [Hb H4].
+    apply andb_true_iff in Hb as [Hb H3]. apply andb_true_iff in Hb as [H1 H2].
+    split; [exact H1|]. split; [apply nodupb_ok, H2|]. split; [exact H3|].
+    split; [apply deps_shortb_ok, H4 | apply build_guardb_ok, H5].
+Qed.
+
+Lemma hist_guardb_ok : forall ops yA, hist_guardb yA ops = true -> hist_guard yA ops.
+Proof.
+  induction ops as [|o ops IH]; intros yA Hb; [exact I|]. cbn [hist_guardb] in Hb.
+  apply andb_true_iff in Hb as [H1 H2]. split; [apply op_guardb_ok, H1 | apply IH, H2].
+Qed.
+
+(* the headline with the decidable guard *)
+Theorem history_lockstep_b ops :
+  hist_guardb sys0 ops = true -> hsim (run_from LAll sys0 ops) (run_from LMinimal sys0 ops).
+Proof. intro Hb. apply history_lockstep, hist_guardb_ok, Hb. Qed.
 End Lockstep.
+
+(* ================================================================== non-vacuity (H := identity) *)
+(* a <- alias <- b, a <- c; a reads the input file p/a.i *)
+Definition y_tg (n : ascii) (cmd : str) (ins : list str) (deps : list nat) : tdef :=
+  mkTD (x_lb n) cmd [] ins [mkOut OFile [n; "."%char; "o"%char]] deps [] false false BNormal false.
+Definition y_src (ain : str) (ccmd : str) : sources :=
+  mkSrc [NTarget (y_tg "a" ["x"%char] [["a"; "."; "i"]%char] []);
+         NAlias (x_lb "l") 0;
+         NTarget (y_tg "b" ["x"%char] [] [1]);
+         NTarget (y_tg "c" ccmd [] [0])]
+        [(["p"; "/"; "a"; "."; "i"]%char, ain)].
+(* build; edit a's input; build; lose a's output and edit c's command; build; lose every target
+   result; build *)
+Definition y_ops : list op :=
+  [OpSources (y_src ["1"%char] ["x"%char]); OpBuild x_cA [2; 3];
+   OpSources (y_src ["2"%char] ["x"%char]); OpBuild x_cA [2; 3];
+   OpPerturb x_pa PAbsent; OpSources (y_src ["2"%char] ["y"%char]); OpBuild x_cA [2; 3];
+   OpDropResults; OpBuild x_cA [2; 3]].
+
+Example lockstep_nonvacuous :
+  hist_guardb hI sys0 y_ops = true /\
+  map (fun r => map lname (br_exec r)) (sy_log (run_from hI LMinimal sys0 y_ops)) =
+    [[["a"]; ["b"]; ["c"]]; [["a"]; ["b"]; ["c"]]; [["c"]]; [["a"]; ["b"]; ["c"]]]%char /\
+  map br_status (sy_log (run_from hI LMinimal sys0 y_ops)) =
+    [[TExecuted; THit; TExecuted; TExecuted]; [TExecuted; THit; TExecuted; TExecuted];
+     [THit; THit; THit; TExecuted]; [TExecuted; THit; TExecuted; TExecuted]].
+Proof. repeat split; vm_compute; reflexivity. Qed.
+
+(* in the third build mode minimal serves a from the cache and restores its (lost) output only because
+   c executes; b's output is not touched *)
+Example minimal_loads_on_demand :
+  let y := run_from hI LMinimal sys0 (firstn 6 y_ops) in
+  let b := build_prefix hI x_cM (sy_src y) [2; 3] (sy_world y) (sy_cache y) 4 in
+  ws_get x_pa (w_ws (sy_world y)) = PAbsent /\
+  map rt_loaded (b_rt b) = [true; false; false; true] /\
+  exists c, ws_get x_pa (w_ws (b_world b)) = PFile c.
+Proof. cbv zeta. split; [vm_compute; reflexivity|]. split; [vm_compute; reflexivity|]. eexists. vm_compute. reflexivity. Qed.
+
+Example deps_present_nonvacuous :
+  wf_src (y_src ["2"%char] ["y"%char]) /\ no_overwrite (y_src ["2"%char] ["y"%char]).
+Proof.
+  split.
+  - intros i n Hn d Hd. destruct i as [|[|[|[|i]]]]; cbn in Hn; try (inversion Hn; subst; cbn in Hd; lia).
+    destruct i; discriminate.
+  - apply nodupb_ok. vm_compute. reflexivity.
+Qed.
+
+(* ================================================================== why each guard is there *)
+Definition x_exec (m : lmode) (ops : lmode -> list op) : list (list str) :=
+  map (fun r => map lname (br_exec r)) (sy_log (run_history hI (ops m))).
+Definition x_stat (m : lmode) (ops : lmode -> list op) : list (list tstatus) :=
+  map br_status (sy_log (run_history hI (ops m))).
+
+(* a blob lost and a dependant forced to run: mode minimal re-runs the dependency a inside the task of
+   c (after a was reported as a cache hit), mode all re-runs it in its own task: the same commands run,
+   both builds succeed, but a's status differs (THit vs TExecuted) *)
+Definition x_ops_blob_taint (m : lmode) : list op :=
+  [OpSources x_s3; OpBuild (mkCfg m true false) [2]; OpDropBlob x_pa; OpPerturb x_pa PAbsent;
+   OpTaint [x_lb "c"]; OpBuild (mkCfg m true false) [2]].
+Example blob_fault_dependency_rerun :
+  x_exec LAll x_ops_blob_taint = [[["a"]; ["b"]; ["c"]]; [["a"]; ["c"]]]%char /\
+  x_exec LMinimal x_ops_blob_taint = [[["a"]; ["b"]; ["c"]]; [["a"]; ["c"]]]%char /\
+  nth 1 (x_stat LAll x_ops_blob_taint) [] = [TExecuted; THit; TExecuted] /\
+  nth 1 (x_stat LMinimal x_ops_blob_taint) [] = [THit; THit; TExecuted].
+Proof. repeat split; vm_compute; reflexivity. Qed.
+
+(* a cache-disabled build stores output-less results: the next cached build re-runs everything in mode
+   all (restore fails) and nothing in mode minimal *)
+Definition x_ops_cache_off (m : lmode) : list op :=
+  [OpSources x_s3; OpBuild (mkCfg m false false) [2]; OpBuild (mkCfg m true false) [2]].
+Theorem lockstep_refuted_cache_off :
+  nth 1 (x_exec LAll x_ops_cache_off) [] = [["a"]; ["b"]; ["c"]]%char /\
+  nth 1 (x_exec LMinimal x_ops_cache_off) [] = [].
+Proof. split; vm_compute; reflexivity. Qed.
+
+(* a directory where a file output is declared: mode all cannot restore and re-runs a, mode minimal does
+   not look *)
+Definition x_ops_wrongkind (m : lmode) : list op :=
+  [OpSources x_s3; OpBuild (mkCfg m true false) [2]; OpPerturb x_pa PWrongKind;
+   OpBuild (mkCfg m true false) [2]].
+Theorem lockstep_refuted_wrongkind :
+  nth 1 (x_exec LAll x_ops_wrongkind) [] = [["a"]]%char /\
+  nth 1 (x_exec LMinimal x_ops_wrongkind) [] = [].
+Proof. split; vm_compute; reflexivity. Qed.
+
+(* ================================================================== cache faults while loading: the two paths *)
+Section Faults.
+Variable H : str -> str.
+
+(* a dependency whose outputs cannot be restored (lost blob, ...) is re-run after ITS dependencies were
+   loaded, and the loop goes on with the remaining dependencies *)
+Lemma ldo_load_failure f cfg s d0 ds b d dt dkey r b1 :
+  resolve s d0 = Some (d, dt) -> rt_key (get_rt b d) = Some dkey ->
+  rlookup dkey (c_results (b_cache b)) = Some r -> load_outputs H d dt r b = (false, b1) ->
+  load_dep_outputs H (S f) cfg s (d0 :: ds) b =
+  let '(ok2, b2) := load_dep_outputs H f cfg s (td_deps dt) b1 in
+  if ok2 then let '(ok3, b3) := execute H cfg s d dt dkey false b2 in
+              if ok3 then load_dep_outputs H f cfg s ds b3 else (false, b3)
+  else (false, b2).
+Proof.
+  intros Hr Hk Hl El. cbn [load_dep_outputs]. rewrite Hr, Hk, Hl, El. cbn [negb orb].
+  destruct (load_dep_outputs H f cfg s (td_deps dt) b1) as [ok2 b2]. destruct ok2; reflexivity.
+Qed.
+
+(* a dependency whose result cannot be read is re-run and the loop RETURNS: the remaining
+   dependencies are not looked at *)
+Lemma ldo_unreadable_returns f cfg s d0 ds b d dt dkey :
+  resolve s d0 = Some (d, dt) -> rt_key (get_rt b d) = Some dkey ->
+  rlookup dkey (c_results (b_cache b)) = None ->
+  load_dep_outputs H (S f) cfg s (d0 :: ds) b = execute H cfg s d dt dkey false b.
+Proof. intros Hr Hk Hl. cbn [load_dep_outputs]. rewrite Hr, Hk, Hl. reflexivity. Qed.
+
+End Faults.
+
+(* the hypotheses of [deps_present] hold in the fault-free state x_pre (a, b served from the cache, not
+   loaded), and LoadDependencyOutputs succeeds there *)
+Example deps_present_partial_nonvacuous :
+  wf_src x_s3 /\ no_overwrite x_s3 /\ rt_len x_pre = length (s_nodes x_s3) /\ loaded_ok x_s3 x_pre /\
+  readable x_s3 x_pre [0; 1] /\
+  fst (load_dep_outputs hI 4 x_cM x_s3 [0; 1] x_pre) = true /\
+  map rt_loaded (b_rt (snd (load_dep_outputs hI 4 x_cM x_s3 [0; 1] x_pre))) = [true; true; false].
+Proof.
+  split; [exact x_s3_wf|]. split; [exact x_s3_no_overwrite|]. split; [vm_compute; reflexivity|].
+  split; [apply loaded_ok_none; vm_compute; reflexivity|]. split; [|split; vm_compute; reflexivity].
+  intros d j tj key Hd Hres Hk.
+  destruct Hd as [<-|[<-|[]]]; vm_compute in Hres; inversion Hres; subst j tj;
+    vm_compute in Hk; inversion Hk; subst key; vm_compute; discriminate.
+Qed.
